@@ -210,6 +210,8 @@ PreLong == {It("accept", <<PAccept>>)}
 \* focus group: method lists that change between consecutive failures inside one AuthMethod's run
 ItemsFocus == {It("fail[" \o Join(l) \o "]", <<PFail(l, FALSE)>>) : l \in {<<PK, PW>>, <<PK>>, <<KBD, PK>>, <<PW>>}}
                 \cup {It("pkok same/same", <<PPkok("@same", "@same")>>), It("success", <<PSucc>>)}
+ItemsFocusDeep == {It("fail[" \o Join(l) \o "]", <<PFail(l, FALSE)>>) : l \in {<<PK, PW>>, <<PK>>}}
+                    \cup {It("pkok same/same", <<PPkok("@same", "@same")>>)}
 PreFocus == {It("accept", <<PAccept>>)}
 
 =============================================================================
